@@ -21,6 +21,7 @@ import time
 def main():
     modname, subname, tier, seed, shard, runs, out_path, workdir = sys.argv[1:9]
     seed, shard, runs = int(seed), int(shard), int(runs)
+    os.environ["VERIF_FUZZ_CHILD"] = "1"  # the engine owns SIGALRM here: Ctx.timed runs without its own alarm
     import atheris
 
     from vlib import harness
@@ -108,8 +109,19 @@ def main():
         for i, blob in enumerate(sub.seeds(tier)):
             with open(os.path.join(corpus, f"seed{i:03d}"), "wb") as f:
                 f.write(blob)
-    argv = [sys.argv[0], f"-runs={runs}", f"-seed={(seed * 997 + shard) % (2 ** 31 - 1) + 1}",
-            f"-max_len={sub.max_len}", "-print_final_stats=1", f"-artifact_prefix={workdir}/", "-verbosity=1",
+    extra = []
+    if sub.mode == "structured":
+        # Hypothesis needs a few hundred to a few thousand bytes of choices to complete one case of these strategies:
+        # start from full-length pseudo-random buffers (a pure function of the seed) and do not ramp the length up
+        import random
+
+        rnd = random.Random(seed * 1000003 + shard)
+        for i in range(8):
+            with open(os.path.join(corpus, f"rand{i:02d}"), "wb") as f:
+                f.write(bytes(rnd.getrandbits(8) for _ in range(sub.max_len)))
+        extra = ["-len_control=0"]
+    argv = [sys.argv[0], *extra, f"-runs={runs}", f"-seed={(seed * 997 + shard) % (2 ** 31 - 1) + 1}",
+            f"-max_len={sub.max_len}", "-print_final_stats=1", "-timeout=60", f"-artifact_prefix={workdir}/", "-verbosity=1",
             corpus]
     atheris.Setup(argv, target, enable_python_coverage=True)
     dump(force=True)
